@@ -46,6 +46,16 @@ CHECKS = {
          "Correspondence on all twelve observable answers incl. limb-boundary operands in every limb position.",
          NOTE_COMMON + " The f64 product in the prefilter enters as the scalar condition PreOK (2^pre(k) <= 10^k), proved for the real formula.",
          "Lean 4 proof + differential correspondence check", "DESIGN.md §5 C02"),
+ "C03": ("Kernel-checked Lean theorem C03_hash_eq_of_value_eq: decimals denoting the same number feed identical data (sign character and digit string, trimmed / zero-extended exactly as the "
+         "source does) to any hasher - by induction on the number of extra trailing zeros; zero hashes as \"0\" with any scale; combined with C02, a == b implies equal hash input; totality of the model. "
+         "Correspondence: the exact byte stream captured by a recording Hasher equals the model's string; equal pairs agree under SipHash, FNV and a chunk-sensitive hasher.",
+         NOTE_COMMON, "Lean 4 proof + differential correspondence check", "DESIGN.md §5 C03"),
+ "C08": ("Kernel-checked Lean theorems: the shift loop and digit loop of impl_division compute a closed form (C08_closed_form, loop invariants); the closed form is within half a unit in the "
+         "last place of the true quotient over Q, ties away from zero, correctly signed, with at least P digits whenever inexact (C08_correctly_rounded, all numerators/denominators/precisions), "
+         "and exact whenever the quotient has at most P significant digits (C08_exact_when_short); the decimal Div body = shortcuts (exact) or impl_division; +-1/+-2 primitive shortcuts exact; "
+         "every primitive/float/assign form panics on a zero divisor. Correspondence: every overload incl. all primitive widths and floats, judged by the relational spec and the model.",
+         NOTE_COMMON + " get_rounding_term on a single digit and count_decimal_digits are replaced by their proven specifications (C18). A numerator equal to one routes to inverse() (C12).",
+         "Lean 4 proof (loop invariants + rational error bound) + differential correspondence check", "DESIGN.md §5 C08"),
 }
 
 NOT_YET = "check under construction in this round (not yet claimed); see DESIGN.md §11 order of work"
